@@ -123,6 +123,11 @@ def child_setup(shard):
     M.wrap_in_modules("propagate", CP.propagate, post=post_prop)
 
 
+def _amp(case):
+    sd = case.get("seed") or [0]
+    return [1.0, 1e-9, 1.0, 1e6, 1e-13, 1.0][int(sd[-1]) % 6]
+
+
 def _image(case, rng, spacing=(0.1, 0.13), optics=True):
     import xarray as xr
     from holopy.core.metadata import data_grid
@@ -132,6 +137,8 @@ def _image(case, rng, spacing=(0.1, 0.13), optics=True):
     a = rng.normal(size=shp)
     if case.get("complex"):
         a = a + 1j * rng.normal(size=shp)
+    # overall amplitude: ordinary, very weak fields (SI-like units), very large -- every identity here is homogeneous
+    a = a * _amp(case)
     kw = dict(medium_index=1.33, illum_wavelen=0.66, illum_polarization=(1, 0), noise_sd=0.05) if optics else {}
     im = data_grid(a, spacing=spacing, extra_dims={"illumination": ["red", "green"]} if extra else None, name="img7", **kw)
     org = case.get("origin", [0.0, 0.0])
@@ -202,6 +209,7 @@ def _run_prop(case):
     a = rng.normal(size=(nx, ny)) + 1.0
     if case["complex"]:
         a = a + 1j * rng.normal(size=(nx, ny))
+    a = a * _amp(case)
     lam, nmed = case["wavelen"], case["index"]
     oi = case["optics_in"]
     kw_attr = {"attrs": dict(medium_index=nmed, illum_wavelen=lam), "args": {}, "mixed": dict(medium_index=nmed)}[oi]
@@ -209,8 +217,8 @@ def _run_prop(case):
     im = data_grid(a, spacing=case["spacing"], illum_polarization=(0, 1), noise_sd=0.1, name="holo3", **kw_attr)
     if case["origin_shift"]:
         im = im.assign_coords(x=im.x.values + 3.25, y=im.y.values - 1.5)
-    b = rng.normal(size=(nx, ny))
-    im2 = data_grid(b + (1j * rng.normal(size=(nx, ny)) if case["complex"] else 0), spacing=case["spacing"], illum_polarization=(0, 1), noise_sd=0.1, name="holo3", **kw_attr)
+    b = rng.normal(size=(nx, ny)) * _amp(case)
+    im2 = data_grid(b + (1j * _amp(case) * rng.normal(size=(nx, ny)) if case["complex"] else 0), spacing=case["spacing"], illum_polarization=(0, 1), noise_sd=0.1, name="holo3", **kw_attr)
     if case["origin_shift"]:
         im2 = im2.assign_coords(x=im.x.values, y=im.y.values)
     d1, d2, d3 = case["d"]
